@@ -8,7 +8,9 @@
  *   F,IR,IC,r2,c2  copy_filled_matrix into a fresh r2 x c2 matrix (index tables a.b.c...)
  *   D  sparse -> dense -> sparse round trip (fresh destination holding entry (0,0))
  *   e,r empty_row   E,c empty_col   w,r weight_row
- * Answer: after every op  <result>=<rows>|<cols>|b<blocks>f<free entries>   with rows = a.b;c.d;...  */
+ * Answer: after every op  <result>=<rows>|<cols>|b<blocks>f<free entries>|<names>|<free list>   with rows = a.b;c.d;...
+ *         names = for every entry in row-major order <block>:<index> (block counted from the oldest live block, index within the block);
+ *         free list = the same names from the head of the free list (at most 40 are printed, then '+') */
 #include <stdio.h>
 #include <stdlib.h>
 #include <string.h>
@@ -16,6 +18,14 @@
 #include "of_linear_binary_code.h"
 
 static of_mod2sparse *cur;
+
+static void name(FILE *o, of_mod2entry *e, long nb)
+{
+	of_mod2block *b; long pos = nb - 1;
+	for (b = cur->blocks; b; b = b->next, pos--)
+		if (e >= &b->entry[0] && e < &b->entry[of_mod2sparse_block]) { fprintf(o, "%ld:%ld,", pos, (long)(e - &b->entry[0])); return; }
+	fprintf(o, "?,");
+}
 
 static void dump(FILE *o, long res)
 {
@@ -32,7 +42,12 @@ static void dump(FILE *o, long res)
 	}
 	for (b = cur->blocks; b; b = b->next) nb++;
 	for (e = cur->next_free; e; e = e->left) nf++;
-	fprintf(o, "|b%ldf%ld", nb, nf);
+	fprintf(o, "|b%ldf%ld|", nb, nf);
+	/* names of the entries: which block (oldest = 0) and which slot */
+	for (i = 0; i < of_mod2sparse_rows(cur); i++)
+		for (e = of_mod2sparse_first_in_row(cur, i); !of_mod2sparse_at_end_row(e); e = of_mod2sparse_next_in_row(e)) name(o, e, nb);
+	fputc('|', o);
+	{ long k = 0; for (e = cur->next_free; e && k < 40; e = e->left, k++) name(o, e, nb); if (e) fputc('+', o); }
 }
 
 static int ints(char *s, UINT32 *out) { int n = 0; char *p = s; if (!s || !*s || *s == '-') return 0; while (1) { out[n++] = strtoul(p, &p, 10); if (*p != '.') break; p++; } return n; }
